@@ -12,8 +12,8 @@
    Two genuine exceptions are known findings (zero divisor / non-boolean LinCombBool under a false guard). *)
 From Coq Require Import ZArith List Znumtheory Lia.
 From PySnark.Base Require Import FieldZ.
-From PySnark.Model Require Import Lc Sym Gadgets.
-From PySnark.Proofs Require Import Sound.
+From PySnark.Model Require Import Lc Sym Gadgets Api Prog.
+From PySnark.Proofs Require Import Sound Meta FieldOk ProgOK Complete.
 Import ListNotations.
 Open Scope Z_scope.
 
@@ -43,6 +43,21 @@ Proof.
   destruct (oid cnd =? 0); cbn [fresh_oid ret bind run]; intros H; inversion H; reflexivity.
 Qed.
 
+
+(* inert, for whole programs: whatever the guards evaluate to (in particular false, at any nesting depth, with body operands
+   that are invalid for the body), the constraint system stays satisfied by the recorded witness -- this is the completeness
+   theorem of C01, which covers guarded regions, lazily evaluated branches and the block API *)
+Theorem C07_guarded_code_keeps_the_system_satisfied : forall (p : Z) (c : cfg) (pr : list stmt) (ins : list Z),
+  prime p -> forallb noign pr = true ->
+  let t := model_run (p:=p) c pr ins false in Forall (holds (p:=p) (wval (st t))) (cons t).
+Proof. intros p c pr ins Hp N. exact (program_complete (field_ok_prime p Hp) c pr ins N). Qed.
+Example C07_example :
+  let pr := [SInput 0 IPriv 0; SInput 1 IPriv 1; SInput 2 IPriv 2;
+             SGuarded 0 [SBin 3 OTrueDiv 1 2; SMeth 4 MAssertZero 1 []; SBin 5 OLt 1 2; SGuarded 5 [SMeth 6 (MAssertPositive None) 3 []]]] in
+  forallb noign pr = true /\ raised (model_run (p:=65537) {| bitlength := 3%nat; resolution := 0 |} pr [0; 100; 7] false) = None.
+Proof. vm_compute. split; reflexivity. Qed.
+
 Print Assumptions C07_true_guard_transparent.
+Print Assumptions C07_guarded_code_keeps_the_system_satisfied.
 Print Assumptions C07_false_guard_inert.
 Print Assumptions C07_region_flag.
